@@ -37,6 +37,30 @@ void harness(void) {
   ASSERT(w_bf_word(A, 0) == ma, "bit array == bitwise model (OR / AND / NOT of the operands)");
   ASSERT((int)w_bf_is_empty(A) == (ma == 0), "is_empty iff no bit is set");
   /* no false negatives, in every representation */
+#if defined(WITH_WRAP) && WITH_WRAP == 2   /* filter living in caller memory (initialize_by_size), updated through that writable view, then the SAME memory re-wrapped */
+  { static uint64_t mem64[8]; uint8_t* mem = (uint8_t*)mem64;
+    void* Wr = w_bf_init_mem(mem, 64, CAPBITS, NH, seed);
+    ASSERT(Wr != 0, "initialize_by_size in caller memory accepted");
+    uint64_t mw = 0;
+    for (int i = 0; i < NAU; i++) { ASSERT(w_bf_update(Wr, x[i]) == 0, "update through the writable view accepted"); mw = model_insert(mw, x[i], seed); }
+    void* Ro = w_bf_wrap(mem, 64);
+    ASSERT(Ro != 0, "read-only wrap of the same memory accepted");
+    for (int i = 0; i < NAU; i++) ASSERT(w_bf_query(Ro, x[i]) == 1, "no false negative in a fresh read-only wrap of memory updated through a writable view");
+    ASSERT((int)w_bf_is_empty(Ro) == (mw == 0), "re-wrapped view: is_empty iff no bit is set");
+    w_bf_delete(Ro); w_bf_delete(Wr); w_bf_delete(A); w_bf_delete(B);
+    WITNESS(); return; }
+#endif
+#ifdef WITH_WRAP   /* read-only wrap of the serialized image of A (A was filled by update() only: its bit count is still pending) */
+  { static uint8_t image[64]; int64_t isz = w_bf_serialize(A, image, 64);
+    ASSERT(isz > 0, "serialize accepted");
+    void* Wv = w_bf_wrap(image, (uint64_t)isz);
+    ASSERT(Wv != 0, "wrap of the image accepted");
+    ASSERT((int)w_bf_is_empty(Wv) == (ma == 0), "wrapped view: is_empty iff no bit is set");
+    for (int i = 0; i < NAU; i++) ASSERT(w_bf_query(Wv, x[i]) == 1, "no false negative in a read-only wrap of the serialized image");
+    ASSERT(w_bf_bits_used(Wv) == popc(ma), "wrapped view: exact count of set bits");
+    w_bf_delete(Wv); w_bf_delete(A); w_bf_delete(B);
+    WITNESS(); return; }
+#endif
 #ifdef LIGHT   /* set-operation queries: only the filter itself (copy / restore / query model are checked by the OP==0 queries) */
   for (int i = 0; i < NAU; i++) if (OP == 0 || OP == 1) ASSERT(w_bf_query(A, x[i]) == 1, "no false negative: inserted item present");
   for (int i = 0; i < NBU; i++) if (OP == 1) ASSERT(w_bf_query(A, y[i]) == 1, "no false negative for the items of the united filter");
